@@ -633,6 +633,20 @@ def hold_C09(v, sc):
         cov[label] = dict(traces=len(cfgs), slices=sum(1 for r in recs if r["ev"] == "S"), short_nonfinal_slices_judged=short, violations=len(bad), wall_s=round(wall, 1))
         if short == 0:
             raise Inconclusive("hold recorder produced no short non-final slice (vacuous)")
+        if not bad:   # binding / vacuity guard: the same log with ONE judged slice made 1 us too early must be rejected for exactly that slice
+            victim = next(r for r in recs if r["ev"] == "S" and r["k"] > 1 and not r["final"] and r["len"] < cfgs[r["tr"]]["J"])
+            sub2 = os.path.join(sub, "corrupt")
+            os.makedirs(sub2, exist_ok=True)
+            stage_specs(sub2)
+            with open(os.path.join(sub2, "hold.ndjson"), "w") as f:
+                for r in recs:
+                    f.write(json.dumps(dict(r, dt=cfgs[r["tr"]]["T"] - 1) if r is victim else r) + "\n")
+            res2 = tlc(sub2, "Mon_JoinHold", cfg="Mon_JoinHold.cfg", workers=1, timeout=600)
+            sets2 = re.findall(r"/\\ viol = \{(.*)\}", res2.out)
+            got = [(int(a), int(b)) for a, b in re.findall(r"<<(\d+), (\d+)>>", sets2[-1])] if sets2 else []
+            if not res2.inv_violated or got != [(victim["tr"], victim["k"])]:
+                raise Inconclusive("Mon_JoinHold does not reject a log with one slice 1 us too early (vacuity guard)\n" + res2.out[-1500:])
+            cov[label]["corruption_guard"] = "one judged slice made 1 us too early: rejected for exactly that slice"
     v.cov["real_clock_hold"] = cov
 
 
